@@ -32,6 +32,17 @@ CHECKS['C14'] = dict(
          'pointers leave the descriptor alone (the typed object-level rule covers functions whose prototype has an IMB_JOB*).',
     design='§3 C14', note=TB)
 
+CHECKS['C12'] = dict(
+    technique='static analysis: guard catalogue from the clang CFG (canonicalised conditions, switch-case contexts), dataflow on error-set state, dominance/reachability rules for validation gating, baseline comparison of guards',
+    text='Decides, on the type-checked CFG of every library TU: each validator return value agrees with whether an error code was set '
+         'on every path; each guard reports the error code of the field it tests; validators are pure (job untouched); with checking on, '
+         'no processing call is reachable from a rejected job in the job API, the asynchronous burst API and every synchronous burst helper, '
+         'the rejected job gets exactly INVALID_ARGS, and validation loops cover all jobs; table indexes are bounded; NULL checks precede use; '
+         'and every one of the ~5800 (function, mode/algorithm, condition, error) guard instances confirmed on the reference tree is still '
+         'present (a dropped or weakened guard is reported with the mode it affects). Not decided: completeness against the prose '
+         'documentation, acceptance of every documented-valid job, buffers untouched by asm direct-API functions.',
+    design='§3 C12', note=TB + '; the guard baseline imbv/data/guards_baseline.json holds semantic tuples (no source text or positions) taken from the reference tree after the fix: commits')
+
 NOT_APPLICABLE = {
     'C07': 'bounds of SIMD loads/stores relative to run-time lengths need relational numeric invariants over ~850 '
            'hand-written assembly functions; no sound static argument in reach (no frama-c; CSA/cppcheck do not see NASM)',
